@@ -27,6 +27,14 @@ def main():
   order = job.get("order") or list(range(len(progs)))
   noise = job.get("noise") or []   # unrelated sources analysed in between
   out = {}
+  # the wall clock is one of the things the output must not depend on: each
+  # configuration runs with its own frozen clock value
+  import tempfile
+  import time
+  clock = float(job.get("clock", 1.7e9))
+  time.time = lambda: clock
+  scratch = tempfile.mkdtemp(prefix="c04w", dir=job["scratch"])
+  bundle_done = False
   shared_loader = None
   if mode == "loader":
     shared_loader = load_pytd.create_loader(
@@ -58,8 +66,25 @@ def main():
       pick = hashlib.sha256(blob).hexdigest()
     except Exception as e:  # pylint: disable=broad-except
       pick = "serialize-raised:" + type(e).__name__
+    # the compressed forms (what --pickle-output / save_to_pickle write)
+    gz = bundle = None
+    try:
+      path = os.path.join(scratch, "m.pickled")
+      pickle_utils.SerializeAndSave(ast, path, compress=True, src_path="m.py")
+      with open(path, "rb") as fh:
+        gz = hashlib.sha256(fh.read()).hexdigest()
+      if not bundle_done and mode != "loader":
+        bundle_done = True
+        path = os.path.join(scratch, "bundle.pickled")
+        ret.context.loader.save_to_pickle(path)
+        with open(path, "rb") as fh:
+          bundle = hashlib.sha256(fh.read()).hexdigest()
+    except Exception as e:  # pylint: disable=broad-except
+      gz = gz or ("save-raised:" + type(e).__name__)
     out[pid] = {"pyi": pyi, "errors": errors_text, "pickle": pick,
-                "listed": listed}
+                "listed": listed, "gz": gz, "bundle": bundle}
+  import shutil
+  shutil.rmtree(scratch, ignore_errors=True)
   sys.stdout.write("RESULT " + json.dumps(out))
 
 
